@@ -46,6 +46,28 @@ func (c *emuCircuit[T]) Define(api frontend.API) error {
 		// either root is a legitimate answer: use the one the circuit was given, once
 		s := f.Sqrt(a)
 		out(f.Mul(s, s))
+	case "constp", "constpm1", "const1":
+		// constants the library builds itself: the modulus p (deliberately kept unreduced by
+		// NewElement / Modulus()), p-1, and a short one; canonical bits, strict reduction and the
+		// in-range assertion must treat them by their canonical representative
+		var fp T
+		k := new(big.Int).Set(fp.Modulus())
+		switch c.chain {
+		case "constpm1":
+			k.Sub(k, big.NewInt(1))
+		case "const1":
+			k.SetInt64(1)
+		}
+		bits := f.ToBitsCanonical(f.NewElement(k))
+		probe(api, 2, bits...)
+		if c.chain != "constp" {
+			f.AssertIsInRange(f.NewElement(k))
+		}
+		out(f.Add(f.ReduceStrict(f.NewElement(k)), f.Mul(a, f.Zero())))
+	case "constp-inrange":
+		var fp T
+		f.AssertIsInRange(f.NewElement(fp.Modulus())) // p is not below p: unsatisfiable
+		out(a)
 	case "short":
 		// operands with fewer limbs than the modulus (bit recompositions, selections of small constants)
 		bits := f.ToBitsCanonical(a)
@@ -114,6 +136,14 @@ func evalChain(chain string, p, a, b, c *big.Int) (res *big.Int, sat bool, any b
 	case "sqrt":
 		// a is drawn as a square: sqrt(a)^2 == a
 		return m(r.Set(a)), true, false
+	case "constp":
+		return new(big.Int), true, false
+	case "constpm1":
+		return new(big.Int).Sub(p, big.NewInt(1)), true, false
+	case "const1":
+		return big.NewInt(1), true, false
+	case "constp-inrange":
+		return nil, false, false
 	case "short":
 		am := new(big.Int).Mod(a, p)
 		x := new(big.Int).And(am, big.NewInt(1<<20-1))
@@ -226,8 +256,11 @@ func emuCase[T emulated.FieldParams](fname, chain string) *gcase {
 				if got.Cmp(want) != 0 {
 					return fmt.Sprintf("result %s, expected %s (mod p)", got, want)
 				}
-				if chain == "bits" {
+				if chain == "bits" || strings.HasPrefix(chain, "const") {
 					am := new(big.Int).Mod(a, p)
+					if strings.HasPrefix(chain, "const") {
+						am = want
+					}
 					for i, bt := range pr[2] {
 						if bt.Cmp(big.NewInt(int64(am.Bit(i)))) != 0 {
 							return fmt.Sprintf("canonical bit %d is %s, expected %d", i, bt, am.Bit(i))
@@ -329,6 +362,14 @@ func emuCases() []*gcase {
 			emuCase[emulated.BN254Fp]("bn254fp", ch),
 			emuCase[emulated.BLS12381Fp]("bls12381fp", ch),
 		)
+	}
+	// chains on library-built constants: the builders refuse to reduce a constant at compile time,
+	// so these run on the test engine only
+	for _, ch := range []string{"constp", "constpm1", "const1", "constp-inrange"} {
+		for _, c := range []*gcase{emuCase[emulated.Goldilocks]("goldilocks", ch), emuCase[emulated.Secp256k1Fp]("secp256k1fp", ch), emuCase[emulated.BN254Fp]("bn254fp", ch)} {
+			c.EngineOnly = true
+			out = append(out, c)
+		}
 	}
 	return out
 }
